@@ -121,19 +121,21 @@ def lp (st : List LS.LStep) : List LS.LStep := LS.leaderPart st false
 
 def lmonFor : String → List LMonitor
   | "C05" => [fun st => at2 "commit" (LS.commitRule st 0)]
-  | "C07" => [fun st => at2 "membership" (LS.oneChangeAtATime st false 0)]
+  | "C07" => [fun st => at2 "membership" (LS.oneChangeAtATime st false 0), fun st => at2 "membership" (LS.stalePrevRefused st 0)]
   | "C08" => [fun st => at2 "client" (LS.ackExact (lp st) 0 (lp st)), fun st => LS.ackOrder (lp st), fun st => LS.fsmInOrder (lp st)]
   | "C02" => [fun st => LS.fsmInOrder (lp st), fun st => at2 "client" (LS.ackExact (lp st) 0 (lp st))]
-  | "C03" => [fun st => at2 "commit" (LS.commitRule st 0), fun st => at2 "membership" (LS.oneChangeAtATime st false 0)]
+  | "C03" => [fun st => at2 "commit" (LS.commitRule st 0), fun st => at2 "membership" (LS.oneChangeAtATime st false 0),
+              fun st => at2 "leader" (LS.requestsSpeakForLedTerm st none 0)]
   | "C09" => [LS.verifyFresh]
   | "C17" => [LS.nothingStranded]
   | "C18" => [LS.notifyFaithful]
-  | "C04" => [fun st => at2 "leader" (LS.requestsFromLog st 0)]
+  | "C04" => [fun st => at2 "leader" (LS.requestsFromLog st 0), fun st => at2 "leader" (LS.requestsSpeakForLedTerm st none 0)]
   | "C12" => [fun st => at2 "leader" (LS.requestsFromLog st 0)]
-  | "C01" => [fun st => at2 "membership" (LS.oneChangeAtATime st false 0)]
+  | "C01" => [fun st => at2 "membership" (LS.oneChangeAtATime st false 0), fun st => at2 "leader" (LS.requestsSpeakForLedTerm st none 0)]
   | _ => [fun st => at2 "commit" (LS.commitRule st 0), fun st => at2 "membership" (LS.oneChangeAtATime st false 0),
+          fun st => at2 "membership" (LS.stalePrevRefused st 0),
           fun st => at2 "client" (LS.ackExact (lp st) 0 (lp st)), fun st => LS.ackOrder (lp st), fun st => LS.fsmInOrder (lp st), LS.verifyFresh, LS.nothingStranded,
-          LS.notifyFaithful, fun st => at2 "leader" (LS.requestsFromLog st 0)]
+          LS.notifyFaithful, fun st => at2 "leader" (LS.requestsFromLog st 0), fun st => at2 "leader" (LS.requestsSpeakForLedTerm st none 0)]
 
 def lfirstSome (st : List LS.LStep) : List LMonitor → Option String
   | [] => none
